@@ -7,12 +7,30 @@ import ClockBound.Proofs.RsLemmas
 import ClockBound.Proofs.RsLoop
 import ClockBound.Generated.Code
 import ClockBound.Rs.EmbedShm
+open Lean Meta Elab Command in
+/-- generate the equation lemmas of the given functions HERE, in a module every proof file of the group imports
+    (two sibling modules that each generated `f.eq_1` on demand could not be imported together) -/
+elab "rs_realize_eqns " ids:ident+ : command => do
+  for id in ids do
+    let declName ← liftCoreM <| realizeGlobalConstNoOverloadWithInfo id
+    let _ ← liftTermElabM <| getEqnsFor? declName
+
 namespace ClockBound.Rs
 open ClockBound ClockBound.Rs ClockBound.Rs.DictShm
 
+rs_realize_eqns DictShm.evLoad DictShm.evStore DictShm.evFence DictShm.cellLoc DictShm.wordLoads DictShm.wordStores
+  DictShm.readWords DictShm.evSys DictShm.evFs DictShm.errnoValue
+  EmbedShm.wordsValue EmbedShm.ordValue EmbedShm.locValue EmbedShm.locTy EmbedShm.accValue EmbedShm.rawInp
+  EmbedShm.writerValue EmbedShm.readerValue EmbedShm.resultValue EmbedShm.loadCard EmbedShm.typedInp
+  EmbedShm.readerOutcome EmbedShm.headerValue EmbedShm.sizes EmbedShm.shmErrValue EmbedShm.validValue
+  EmbedShm.readValue EmbedShm.streamOf EmbedShm.cstrValue EmbedShm.freshReaderValue EmbedShm.openValue
+  EmbedShm.openAnswers EmbedShm.okUnit EmbedShm.opValue EmbedShm.isMutEv EmbedShm.openUsed EmbedShm.wipeAnswers
+  EmbedShm.newAnswers Outcome.noLog Outcome.okWith
+
 attribute [rs_eval] DictShm.path DictShm.deref DictShm.method DictShm.call DictShm.methodA DictShm.callA
   DictShm.methodB DictShm.methodC DictShm.callC DictShm.pathC DictShm.pathAll DictShm.derefAll DictShm.derefC
-  DictShm.macroC DictShm.fieldOfC DictShm.atomicVal DictShm.addr DictShm.addrPlus DictShm.libcConst DictShm.asInt
+  DictShm.macroC DictShm.methodD DictShm.callD DictShm.pathD DictShm.fsCall DictShm.asResult DictShm.pathObj
+  DictShm.fileObj DictShm.syscallErr DictShm.fieldOfC DictShm.atomicVal DictShm.addr DictShm.addrPlus DictShm.libcConst DictShm.asInt
   DictShm.ptrA16 DictShm.refA16 DictShm.ptrCeb DictShm.ordering DictShm.asU16 DictShm.asU64 bitInt
 
 /-! the dictionary stays folded (`DictShm.ext`); its fields -/
